@@ -1070,7 +1070,8 @@ fn transcript(thorough: bool, path: &str) {
         }
     }
     for op in &vops {
-        let recs = std::panic::catch_unwind(|| (op.run)()).unwrap_or_default();
+        // a panic of the subject inside a value operation is recorded as one PANIC record
+        let recs = std::panic::catch_unwind(|| (op.run)()).unwrap_or_else(|_| vec![Rec { class: 200, pos: 0, digest: 0 }]);
         out.extend_from_slice(&(op.name.len() as u16).to_le_bytes());
         out.extend_from_slice(op.name.as_bytes());
         out.extend_from_slice(&(recs.len() as u32).to_le_bytes());
@@ -1084,7 +1085,28 @@ fn transcript(thorough: bool, path: &str) {
 }
 
 /// C06 in this configuration: skip() over the structural tree corpus.
+/// `skip()` on a fresh decoder over `b`; a panic of the subject is a result like any other (Err(None)).
+fn guarded_skip(b: &[u8]) -> (Result<(), Option<decode::Error>>, usize) {
+    match std::panic::catch_unwind(|| {
+        let mut d = Decoder::new(b);
+        let r = d.skip();
+        (r, d.position())
+    }) {
+        Ok((r, p)) => (r.map_err(Some), p),
+        Err(_) => (Err(None), 0),
+    }
+}
+
+fn show_skip(r: &Result<(), Option<decode::Error>>) -> String {
+    match r {
+        Ok(()) => "Ok".to_string(),
+        Err(Some(e)) => format!("Err({})", e),
+        Err(None) => "PANICKED".to_string(),
+    }
+}
+
 fn skipcheck(thorough: bool) {
+    std::panic::set_hook(Box::new(|_| {}));
     let trees = skip_trees(thorough);
     let alloc = cfg!(feature = "alloc");
     let suffixes: [&[u8]; 6] = [&[], &[0x00], &[0xff], &[0xff, 0xff], &[0x9f], &[0x82]];
@@ -1098,45 +1120,50 @@ fn skipcheck(thorough: bool) {
         for suf in suffixes {
             let mut b = enc.clone();
             b.extend_from_slice(suf);
-            let mut d = Decoder::new(&b);
-            let r = d.skip();
+            let (r, pos) = guarded_skip(&b);
             evals += 1;
             match r {
-                Ok(()) if d.position() == enc.len() => ok_pos += 1,
-                Err(e) if !alloc && e.is_message() && nested => refused += 1,
+                Ok(()) if pos == enc.len() => ok_pos += 1,
+                Err(Some(ref e)) if !alloc && e.is_message() && nested => refused += 1,
                 other => {
                     violations += 1;
                     if violations <= 20 {
-                        println!("SKIP-VIOLATION item={} input_hex={} result={:?} position={} item_len={} nested_indefinite_in_definite={}", t.diag(), hex(&b), other.map_err(|e| e.to_string()), d.position(), enc.len(), nested);
+                        println!("SKIP-VIOLATION item={} input_hex={} result={} position={} item_len={} nested_indefinite_in_definite={}", t.diag(), hex(&b), show_skip(&other), pos, enc.len(), nested);
                     }
                 }
             }
         }
         for k in 0..enc.len() {
-            let mut d = Decoder::new(&enc[..k]);
             evals += 1;
-            if d.skip().is_ok() {
+            let (r, _) = guarded_skip(&enc[..k]);
+            if !matches!(r, Err(Some(_))) {
                 violations += 1;
                 if violations <= 20 {
-                    println!("SKIP-VIOLATION item={} input_hex={} result=Ok on a strict prefix", t.diag(), hex(&enc[..k]));
+                    println!("SKIP-VIOLATION item={} input_hex={} result={} on a strict prefix", t.diag(), hex(&enc[..k]), show_skip(&r));
                 }
             }
         }
     }
     // hostile heads, judged by the reference parser
     for h in refmodel::enumerate::hostile_heads() {
-        let mut d = Decoder::new(&h);
-        let r = d.skip();
+        let (r, pos) = guarded_skip(&h);
         evals += 1;
+        if matches!(r, Err(None)) {
+            violations += 1;
+            if violations <= 20 {
+                println!("SKIP-VIOLATION input_hex={} result=PANICKED", hex(&h));
+            }
+            continue;
+        }
         match parse(&h) {
             Ok((item, _)) if !item.utf8_ok() => {}
             Ok((item, used)) => match r {
-                Ok(()) if d.position() == used => ok_pos += 1,
-                Err(e) if !alloc && e.is_message() && item.has_indef_in_def() => refused += 1,
+                Ok(()) if pos == used => ok_pos += 1,
+                Err(Some(ref e)) if !alloc && e.is_message() && item.has_indef_in_def() => refused += 1,
                 other => {
                     violations += 1;
                     if violations <= 20 {
-                        println!("SKIP-VIOLATION item={} input_hex={} result={:?} position={} item_len={}", item.diag(), hex(&h), other.map_err(|e| e.to_string()), d.position(), used);
+                        println!("SKIP-VIOLATION item={} input_hex={} result={} position={} item_len={}", item.diag(), hex(&h), show_skip(&other), pos, used);
                     }
                 }
             },
@@ -1144,7 +1171,7 @@ fn skipcheck(thorough: bool) {
                 if r.is_ok() {
                     violations += 1;
                     if violations <= 20 {
-                        println!("SKIP-VIOLATION input_hex={} result=Ok (position {}) although the input ends inside the item", hex(&h), d.position());
+                        println!("SKIP-VIOLATION input_hex={} result=Ok (position {}) although the input ends inside the item", hex(&h), pos);
                     }
                 }
             }
